@@ -61,6 +61,14 @@ impl CanonicalHuffmanDecoder {
 }
 
 fn build_canonical_code_book(alphabet: &[i32], bit_lens: &[u32]) -> CodeBook {
+    // Codes are `i32`s. A code length that does not fit has no code: decoding fails with "could not
+    // find symbol".
+    const MAX_BIT_LEN: u32 = i32::BITS - 1;
+
+    if bit_lens.iter().any(|&bit_len| bit_len > MAX_BIT_LEN) {
+        return CodeBook::new();
+    }
+
     let sorted_alphabet = {
         let mut pairs: Vec<_> = alphabet.iter().zip(bit_lens.iter()).collect();
         pairs.sort_by_key(|&(symbol, bit_len)| (bit_len, symbol));
@@ -69,8 +77,13 @@ fn build_canonical_code_book(alphabet: &[i32], bit_lens: &[u32]) -> CodeBook {
 
     let mut code_book = CodeBook::with_capacity(sorted_alphabet.len());
 
+    // An empty alphabet has no codes: decoding with it fails with "could not find symbol".
+    let Some(&(_, &first_bit_len)) = sorted_alphabet.first() else {
+        return code_book;
+    };
+
     let mut code = 0;
-    let mut prev_bit_len = *sorted_alphabet[0].1;
+    let mut prev_bit_len = first_bit_len;
 
     for (&symbol, &bit_len) in sorted_alphabet {
         if bit_len > prev_bit_len {
